@@ -14,7 +14,7 @@ PROPS = {
                        "moves next: an interleaving is a shrinkable, replayable value. (S) Stress mode: 1-3 real gateway processes on one storage, 2-10 "
                        "parallel clients with 1-6 operations each, no hooks, monotonic clock stamps. Oracle for both: every 200 read must carry the body, "
                        "length, ETag, metadata and content type of one single write (else: torn read), and the history with its real-time order must be "
-                       "linearizable for a register holding 'absent' or a write (refused writes / deletes may or may not have taken effect). A third of the scheduled cases stall one operation after k of its steps until the others are through; uploads declare a CRC32 and most reads ask for it (the checksum must belong to the same write); one write is the empty object. A quarter of the cases run with a versions store and bucket versioning enabled; writers are stalled as well as readers. Reads also come as server-side copies of the key to a key of the operation's own (what arrives there is what the copy read: it must be body, ETag and metadata of one write)."),
+                       "linearizable for a register holding 'absent' or a write (refused writes / deletes may or may not have taken effect). A third of the scheduled cases stall one operation after k of its steps until the others are through; uploads declare a CRC32 and most reads ask for it (the checksum must belong to the same write); one write is the empty object. A quarter of the cases run with a versions store and bucket versioning enabled; writers are stalled as well as readers. Reads also come as server-side copies of the key to a key of the operation's own (what arrives there is what the copy read: it must be body, ETag and metadata of one write). Every write comes with a tag set of its own and GetObjectTagging is one of the reads (during the race and once after it)."),
         "level_note": "interleavings are explored at hook granularity (steps between two hooks are atomic for the explorer); the stress mode does not depend on hook placement. Versioned buckets and the sidecar metadata store are not part of this check. Exploration only.",
         "rule": ("case = (temp-file strategy, gateways, initial state, operations, schedule). Non-trivial: at least two operations were in flight together "
                  "(A) / a write overlapped another client's operation (S); distinct by the full case including the schedule."),
@@ -150,7 +150,7 @@ PROPS = {
                        "markers (enabled: every write pushes a fresh distinct id; otherwise the null version is replaced). After every step GET of "
                        "every key equals the top of its stack (404 for a marker / nothing), at the end every live version is retrievable byte-"
                        "exact with its own metadata under its id, and the complete version listing equals the model: same (key, id) set, versions "
-                       "vs markers, exactly the top flagged latest, no duplicates, pagination terminates. Every version check is repeated with HEAD by version id; a copy of a key onto itself with replaced metadata is a write like any other (enabled and suspended). Also: refused uploads (the versions must stay as they were), copies by version id, delimiters in the version listing. Every write carries two user metadata entries, one under a name that depends on the write: the whole set is compared per version (an entry inherited from another version shows)."),
+                       "vs markers, exactly the top flagged latest, no duplicates, pagination terminates. Every version check is repeated with HEAD by version id; a copy of a key onto itself with replaced metadata is a write like any other (enabled and suspended). Also: refused uploads (the versions must stay as they were), copies by version id, delimiters in the version listing. Every write carries two user metadata entries, one under a name that depends on the write: the whole set is compared per version (an entry inherited from another version shows). Writes carry a tag set; a key whose current version is a delete marker must read as missing through HEAD, GetObjectTagging and GetObjectAttributes as well."),
         "level_note": "a delete of a key that never existed may or may not create a marker (both accepted); directory-marker keys are excluded by the statement. In-process engine. Exploration only.",
         "rule": ("case = (sidecar, pre ops, ops). Non-trivial: the program deletes the current version / marker while older entries exist, or a null version "
                  "predates enabling; distinct by the full case."),
@@ -189,7 +189,7 @@ PROPS = {
                        "with COPY / REPLACE metadata and tagging directives, get / head / GetObjectAttributes / GetObjectTagging / ListObjectsV2, "
                        "and SIGTERM / SIGKILL restarts; bodies from a boundary-size table (0 ... 1 MiB+1, 5 MiB parts), keys built from URL-reserved "
                        "and multi-byte characters, deep nesting and 255-byte segments. After every acknowledged upload each read through any "
-                       "process must return exactly the model's bytes, length, ETag (MD5 / multipart ETag), headers, metadata, tags, checksums. The final sweep reads every key's tag set as well (tags must survive copies with either directive). (D) directory objects: successive PUTs of one with different user metadata - HEAD / GET show exactly the last one's. Metadata names come from a small pool half of the time; a third of the multipart uploads carry a FULL_OBJECT checksum; copies may ask for a checksum; content headers the last write did not supply must be absent."),
+                       "process must return exactly the model's bytes, length, ETag (MD5 / multipart ETag), headers, metadata, tags, checksums. The final sweep reads every key's tag set as well (tags must survive copies with either directive). (D) directory objects: successive PUTs of one with different user metadata - HEAD / GET show exactly the last one's. Metadata names come from a small pool half of the time; a third of the multipart uploads carry a FULL_OBJECT checksum; copies may ask for a checksum; content headers the last write did not supply must be absent. One upload in eight states a Content-MD5 of other content: it must be refused and the key (bytes, headers, metadata, tags) reads at once exactly as before."),
         "level_note": "Multipart uploads use part numbers that need not start at 1 nor be contiguous; user metadata values may be empty; a CopyObject answered NoSuchKey for a key HEAD finds is a violation. an upload that is refused is 'not acknowledged' and only counted; Content-Encoding of aws-chunked uploads and the ETag of a copied multipart object are not judged. Open finding C01-sidecar-stale-attributes narrows the attribute comparison for overwritten keys in sidecar mode to 'supplied attributes are present'. Exploration only.",
         "rule": ("case = (config, nproc, keys, ops). Non-trivial: the program reads an acknowledged object through a different process than the one that "
                  "acknowledged it, or after a restart, or the key contains URL-reserved characters; distinct by the full case."),
